@@ -31,7 +31,7 @@ for pid in all_ids:
         "evidence_file": "/verif/evidence/%s.json" % pid,
         "replay_cmd_template": "./check %s --replay {path}" % pid,
         "engine": "gosym",
-        "level_claimed": {"category": c['level'], "text": c.get('level_text', 'bounded symbolic model checking of the implementation: the anchor functions are executed from their SSA with symbolic inputs; every branch is decided by z3, every assertion is a validity query over the path condition; holds for all inputs within the stated bounds: ' + c.get('bounds_text', '')), "design_ref": c.get('design_ref', 'DESIGN.md §6 ' + pid)},
+        "level_claimed": {"category": c['level'], "text": c.get('level_text', 'bounded symbolic model checking of the implementation: the anchor functions are executed from their SSA with symbolic inputs; every branch is decided by z3, every assertion is a validity query over the path condition; holds for all inputs within the stated bounds: ' + c.get('bounds_text', '')), "design_ref": c.get('design_ref', 'DESIGN.md §0 (row %s), §3, §4, §10' % pid)},
         "level_note": 'Assumed/trusted: ' + '; '.join(c.get('assumptions', [])) + '. Outside the claim: ' + c.get('outside', ''),
         "technique": c.get('technique', 'SSA symbolic execution + SMT (z3), bounded'),
     })
